@@ -348,7 +348,7 @@ def build_classes(prog):
 
 
 def build_model(classes, attrs):
-    """A small attached model: 3 metabolites, 2 genes, 2 reactions, 2 groups (one nested), one open context."""
+    """A small attached model: 4 metabolites and 3 genes (one of each used by no reaction), 2 reactions, groups (one nested), one open context."""
     Model, Met, Gene, Rxn, Group = (classes[k] for k in ("Model", "Metabolite", "Gene", "Reaction", "Group"))
 
     def fill(o):
@@ -365,8 +365,9 @@ def build_model(classes, attrs):
                 o.__dict__[a] = f"{a} of {o.id}"
 
     m = Model("M")
-    mets = [Met(x) for x in "abc"]
-    genes = [Gene(x) for x in ("g1", "g2")]
+    # `z` is in no reaction and `g0` in no rule: objects a model lists without any reaction leading to them
+    mets = [Met(x) for x in "abcz"]
+    genes = [Gene(x) for x in ("g1", "g2", "g0")]
     r1, r2 = Rxn("R1"), Rxn("R2")
     for o in mets + genes + [r1, r2]:
         o._model = m
